@@ -79,6 +79,27 @@ def run(chk):
                     env2 = dict(env, key=(pipegen.KEY if rng.chance(1, 2) else None))
                     runner.run_case({"env": env2, "caller": caller, "dest": e2e.WS, "label": "ws", "req": req, "plan": None,
                                      "timeout": 20.0})
+        # several requests on ONE kept-alive connection whose limit classes differ, and requests that follow a refused one: the limit
+        # is the limit of the request at hand, and nothing of a refused body reaches the host with a later request
+        def rq(method, target, size, chunked=None):
+            return {"env": env, "caller": caller, "dest": e2e.WS, "label": "ws", "plan": None, "timeout": 20.0,
+                    "req": {"method": method, "target": target, "headers": [(b"Host", b"h")], "body": big_body(size, rng), "chunked": chunked}}
+        up, up2, plain = ("PUT", "/vmAgentLog"), ("POST", "/machine/?comp=telemetrydata"), ("POST", "/machine/?comp=telemetry")
+        sessions = [
+            [rq(*up, 1024), rq(*plain, 2 * LOW), rq(*plain, LOW), rq(*up, 3 * LOW)],
+            [rq(*up2, 10), rq(*plain, LOW + 1, [30000] * 4), rq(*plain, 7)],
+            [rq("GET", "/machine?comp=goalstate", 0), rq(*up, LOW + LOW // 2), rq(*up2, 2 * LOW, [50000] * 5), rq(*plain, LOW + 1)],
+            [rq(*plain, 5), rq(*up, 2 * LOW), rq(*plain, LOW - 1)],
+            [rq(*plain, LOW + 1, [32768, 32768, 32768, 4097]), rq(*plain, 5), rq(*up, 9)],
+            [rq(*plain, LOW + 1, [LOW, 1]), rq(*plain, 5, [5])],
+            [rq(*plain, LOW + 9, [4096] * 26), rq(*plain, 64, [64]), rq(*plain, 3)],
+        ]
+        for sess in sessions:
+            done = runner.run_session(sess, chk.count)
+            chk.count("kept_connection_sessions")
+            chk.count("kept_connection_requests", len(done))
+            if len(done) > 1:
+                chk.count("kept_connection_sessions_beyond_first_request")
         # a host that drains a legal large upload slowly (longer than any 10 s budget): the upload is still relayed whole
         slow = [("PUT", "/vmAgentLog", 16 << 20, 1300000, False)]
         if chk.tier == "thorough":
@@ -107,6 +128,8 @@ def run(chk):
         chk.sample(runner.describe(runner.observations[-1]))
     finally:
         stack.close()
+    if chk.counts.get("kept_connection_sessions_beyond_first_request", 0) == 0:
+        chk.broken.append({"kind": "gate", "name": "generator sanity", "why": "no kept-alive session got beyond its first request"})
     for k in ("low_cl_over", "low_chunked_over", "low_cl_at", "low_chunked_at"):
         if chk.counts.get(k, 0) == 0:
             chk.broken.append({"kind": "gate", "name": "generator sanity", "why": f"{k} never exercised"})
